@@ -362,3 +362,71 @@ Example C04_norm_id_nonvacuous :
   (forall md, lookup_message ebs (q "TsNull") = Some md -> lossy_free ebs md = true) /\
   owner_of ebs tsnull_md = Own FtEmpty.
 Proof. exact EmptyConforms.norm_id_nonvacuous. Qed.
+
+(* ---- appended by P7_compose ---- *)
+
+(* ONE round-trip theorem for every message type whose codec is none or exactly one of the five field codecs
+   (nullable, int64 NUMBER, bytes_encoding, timestamp_format, empty_behavior) — C04_roundtrip_full restricted by
+   the computable [field_codec_owner] and nothing else: distinct JSON names, "the emitted codec compiles",
+   "tn is not a well-known type" and "no NULL Timestamp holds the epoch" are derived in proofs/CodecCompose.v
+   from wt, encode = ROk and defects_C04 = [] *)
+From SebufProofs Require CodecCompose.
+Theorem C04_roundtrip_field_codecs : forall E, ExtLaws E -> forall sc tn m j,
+  CodecCompose.field_codec_owner sc tn = true ->
+  wt sc (KMessage tn) (FM m) = true ->
+  defects_C04 sc tn m = [] ->
+  encode E sc tn m = ROk j -> decode E sc tn j = ROk (norm sc tn m).
+Proof. exact CodecCompose.C04_roundtrip_field_codecs. Qed.
+Print Assumptions C04_roundtrip_field_codecs.
+
+(* non-vacuity on the shared schema xs: one message type per field codec and one without a codec; every
+   hypothesis holds, the annotated field is populated (absent for nullable), the conclusion is evaluated *)
+Example C04_field_codecs_nonvacuous :
+  CodecCompose.c04_case_ok xs (q "Nums") (Own FtInt64)
+    [(s "big", vint 9007199254740993); (s "name", vstr "n")]
+    (JObj [(s "big", JNum 9007199254740993); (s "name", JStr (s "n"))])
+    [(s "big", vint 9007199254740993); (s "name", vstr "n")] /\
+  CodecCompose.c04_case_ok xs (q "Nul") (Own FtNullable)
+    [(s "id", vstr "x")]
+    (JObj [(s "id", JStr (s "x")); (s "nick", JNull)])
+    [(s "id", vstr "x")] /\
+  CodecCompose.c04_case_ok xs (q "Nul") (Own FtNullable)
+    [(s "nick", vstr "k"); (s "id", vstr "x")]
+    (JObj [(s "nick", JStr (s "k")); (s "id", JStr (s "x"))])
+    [(s "nick", vstr "k"); (s "id", vstr "x")] /\
+  CodecCompose.c04_case_ok xs (q "Emp") (Own FtEmpty)
+    [(s "nul_it", FM []); (s "omit", FM []); (s "id", vstr "x")]
+    (JObj [(s "nulIt", JNull); (s "id", JStr (s "x"))])
+    [(s "nul_it", FM []); (s "id", vstr "x")] /\
+  CodecCompose.c04_case_ok xs (q "Times") (Own FtTs)
+    [(s "secs", tsv 5 123456789); (s "day", tsv 90000 1); (s "id", vstr "x")]
+    (JObj [(s "secs", JNum 5); (s "day", JStr (s "1970-01-02")); (s "id", JStr (s "x"))])
+    [(s "secs", tsv 5 0); (s "day", tsv 86400 0); (s "id", vstr "x")] /\
+  CodecCompose.c04_case_ok xs (q "Blob") (Own FtBytes)
+    [(s "h", FS (VBytes [ch 105; ch 183])); (s "id", vstr "x")]
+    (JObj [(s "h", JStr (s "69b7")); (s "id", JStr (s "x"))])
+    [(s "h", FS (VBytes [ch 105; ch 183])); (s "id", vstr "x")] /\
+  CodecCompose.c04_case_ok xs (q "Leaf") OwnNone
+    [(s "a", vstr "x"); (s "n", vint 3)]
+    (JObj [(s "a", JStr (s "x")); (s "n", JStr (s "3"))])
+    [(s "a", vstr "x"); (s "n", vint 3)].
+Proof. exact CodecCompose.roundtrip_field_codecs_nonvacuous. Qed.
+Print Assumptions C04_field_codecs_nonvacuous.
+
+(* defects_C04 = [] cannot be dropped: every other hypothesis holds and the round trip fails
+   (empty_behavior = NULL on a Timestamp field holding the epoch) *)
+Example C04_roundtrip_field_codecs_needs_no_defects :
+  let m := [(s "at", FM []); (s "id", vstr "x")] in
+  CodecCompose.field_codec_owner ebs (q "TsNull") = true /\
+  wt ebs (KMessage (q "TsNull")) (FM m) = true /\
+  defects_C04 ebs (q "TsNull") m = [D4EmptyNullEpochTs] /\
+  encode Ex ebs (q "TsNull") m = ROk (JObj [(s "at", JNull); (s "id", JStr (s "x"))]) /\
+  decode Ex ebs (q "TsNull") (JObj [(s "at", JNull); (s "id", JStr (s "x"))]) = RErr (s "invalid timestamp").
+Proof. exact CodecCompose.roundtrip_field_codecs_needs_no_defects. Qed.
+
+(* what field_codec_owner accepts *)
+Example C04_field_codec_owner_examples :
+  CodecCompose.field_codec_owner xs (q "Person") = false /\ CodecCompose.field_codec_owner xs (q "Event") = false /\
+  CodecCompose.field_codec_owner xs (q "Series") = false /\ CodecCompose.field_codec_owner xs (q "Strs") = false /\
+  CodecCompose.field_codec_owner xs (s "x.v1.Missing") = false /\ CodecCompose.field_codec_owner xs ts_name = true.
+Proof. exact CodecCompose.field_codec_owner_examples. Qed.
